@@ -1,43 +1,69 @@
 (** * C06 -- the N-Triples reader yields exactly the triples of the document *)
 From Coq Require Import List Ascii String ZArith Bool.
-From Shexer Require Import Lib.PyStr Gen.Consts Model.NtReader Spec.NtSyntax Spec.NtDom Proofs.NtProofs.
+From Shexer Require Import Lib.PyStr Gen.Consts Model.NtReader Spec.NtSyntax Spec.NtDom Spec.NtDomCur
+  Proofs.NtProofs Proofs.NtProofsFx.
 Import ListNotations.
 
-(** Main theorem (partial: restricted to [C06_dom]).  For every valid
+(** The reader has two texts: the tokeniser of the tree as it was, and the tokeniser after the
+    repairs notes/proposed_fixes/C06-token-end-before-dot.diff and C06-closing-quote-scan.diff.
+    [Gen.Consts.nt_fixed_tok] (regenerated from /repo on every run) says which one /repo has;
+    [read_raw_string_cur], [C06_dom_cur], [root_causes_cur] follow it.  Both models and both
+    domain theorems stay checked whatever the flag says.
+
+    Main theorem (partial: restricted to [C06_dom_cur]).  For every valid
     statement [t] and layout [l] (separators (space|tab)+, optional blanks
-    before the dot, optional trailing comment) in [C06_dom], the model of
+    before the dot, optional trailing comment) in the domain, the model of
     [NtTriplesYielder(raw_graph=line).yield_triples()] on the rendered line
     terminates normally, yields exactly one triple whose node kinds, IRIs,
     blank-node identifiers and literal datatype are those of the statement,
     and counts zero error lines.  Proved for lexical forms, IRIs, labels and
     comments of any length.  What is missing with respect to the full
-    property: the valid lines outside [C06_dom], i.e. those on which one of
-    the eight root causes [rc_F1 .. rc_F8] holds (each refuted below). *)
+    property: the valid lines outside the domain, i.e. those on which one of
+    the root causes of [root_causes_cur] holds (each refuted below). *)
 Theorem C06_partial : forall allow t l,
-  valid_triple t = true -> valid_layout l = true -> C06_dom t l = true ->
-  kinded_result (read_raw_string allow (nt_line t l)) = Some ([kinded t], 0%nat).
-Proof. exact line_partial. Qed.
+  valid_triple t = true -> valid_layout l = true -> C06_dom_cur t l = true ->
+  kinded_result (read_raw_string_cur allow (nt_line t l)) = Some ([kinded t], 0%nat).
+Proof. exact line_partial_cur. Qed.
 Print Assumptions C06_partial.
 
 (** Documents: one statement per line, in document order. *)
 Theorem C06_document_partial : forall allow (ts : list (striple * layout)),
-  Forall (fun x => valid_triple (fst x) = true /\ valid_layout (snd x) = true /\ C06_dom (fst x) (snd x) = true) ts ->
-  kinded_result (read_raw_string allow (nt_doc ts)) = Some (map (fun x => kinded (fst x)) ts, 0%nat).
-Proof. exact document_partial. Qed.
+  Forall (fun x => valid_triple (fst x) = true /\ valid_layout (snd x) = true /\ C06_dom_cur (fst x) (snd x) = true) ts ->
+  kinded_result (read_raw_string_cur allow (nt_doc ts)) = Some (map (fun x => kinded (fst x)) ts, 0%nat).
+Proof. exact document_partial_cur. Qed.
 Print Assumptions C06_document_partial.
 
 (** Termination: never the hang outcome (fuel is never exhausted). *)
 Theorem C06_terminates : forall allow t l,
-  valid_triple t = true -> valid_layout l = true -> C06_dom t l = true ->
-  forall ys e, read_raw_string allow (nt_line t l) <> DocHang ys e.
-Proof. exact line_terminates. Qed.
+  valid_triple t = true -> valid_layout l = true -> C06_dom_cur t l = true ->
+  forall ys e, read_raw_string_cur allow (nt_line t l) <> DocHang ys e.
+Proof. exact line_terminates_cur. Qed.
 Print Assumptions C06_terminates.
 
-(** [C06_dom] is the joint absence of the eight root causes. *)
+(** The domain is the joint absence of the root causes. *)
 Theorem C06_dom_is_no_root_cause : forall t l,
-  C06_dom t l = true <-> Forall (fun b => b = false) (root_causes t l).
-Proof. exact dom_iff_no_root_cause. Qed.
+  C06_dom_cur t l = true <-> Forall (fun b => b = false) (root_causes_cur t l).
+Proof. exact dom_cur_iff_no_root_cause. Qed.
 Print Assumptions C06_dom_is_no_root_cause.
+
+(** The same statement for each text of the tokeniser. *)
+Theorem C06_partial_unrepaired_tokeniser : forall allow t l,
+  valid_triple t = true -> valid_layout l = true -> C06_dom t l = true ->
+  kinded_result (read_raw_string allow (nt_line t l)) = Some ([kinded t], 0%nat).
+Proof. exact line_partial. Qed.
+Print Assumptions C06_partial_unrepaired_tokeniser.
+
+Theorem C06_partial_repaired_tokeniser : forall allow t l,
+  valid_triple t = true -> valid_layout l = true -> C06_dom_fx t l = true ->
+  kinded_result (read_raw_string_fx allow (nt_line t l)) = Some ([kinded t], 0%nat).
+Proof. exact line_partial_fx. Qed.
+Print Assumptions C06_partial_repaired_tokeniser.
+
+(** The repairs only enlarge the domain: every root cause but F3, F4, F5 (typing of the token,
+    [decide_literal_type]) and the [_:b.#comment] remainder of F7 is gone. *)
+Theorem C06_repairs_enlarge_domain : forall t l, C06_dom t l = true -> C06_dom_fx t l = true.
+Proof. exact dom_grows. Qed.
+Print Assumptions C06_repairs_enlarge_domain.
 
 (** ** non-vacuity *)
 Definition ex_s : snode := NIri (Str "http://e/s#a@b_c:d").
@@ -56,8 +82,8 @@ Definition ex_t : striple :=
 Definition ex_l : layout := Layout [ascii_of_nat 9] [ascii_of_nat 9; " "%char] [] None.
 
 Example C06_dom_inhabited :
-  valid_triple ex_t = true /\ valid_layout ex_l = true /\ C06_dom ex_t ex_l = true /\
-  kinded_result (read_raw_string false (nt_line ex_t ex_l))
+  valid_triple ex_t = true /\ valid_layout ex_l = true /\ C06_dom_cur ex_t ex_l = true /\
+  kinded_result (read_raw_string_cur false (nt_line ex_t ex_l))
   = Some ([(KBn (Str "_:b1"), ex_p, KLit (Str "http://www.w3.org/2001/XMLSchema#integer"))], 0%nat).
 Proof. repeat split; vm_compute; reflexivity. Qed.
 
@@ -65,11 +91,12 @@ Proof. repeat split; vm_compute; reflexivity. Qed.
 Example C06_dom_inhabited_lang :
   let t := STriple ex_s ex_p (OLit (ic "x^^y" ++ [IEsc dq]) (SufLang (Str "en-GB"))) in
   let l := lay "  " " " " " (Some (" "%string, " see <http://e/x> 12."%string)) in
-  valid_triple t = true /\ valid_layout l = true /\ C06_dom t l = true /\
-  kinded_result (read_raw_string false (nt_line t l)) = Some ([kinded t], 0%nat).
+  valid_triple t = true /\ valid_layout l = true /\ C06_dom_cur t l = true /\
+  kinded_result (read_raw_string_cur false (nt_line t l)) = Some ([kinded t], 0%nat).
 Proof. repeat split; vm_compute; reflexivity. Qed.
 
-(** ** the full statement is false on the current code: one witness per root cause *)
+(** ** the full statement is false: one witness per root cause of the unrepaired tokeniser
+    ([read_raw_string]); F3, F4, F5 and the remainder of F7 also for the repaired one below *)
 Definition refutes (t : striple) (l : layout) : Prop :=
   valid_triple t = true /\ valid_layout l = true /\
   kinded_result (read_raw_string false (nt_line t l)) <> Some ([kinded t], 0%nat).
@@ -123,9 +150,52 @@ Qed.
 Lemma C06_F8_refuted : exists t l, rc_F8 t l = true /\ refutes t l.
 Proof. exists (plain (ic "a")), (lay " " " " " " (Some (" "%string, " ^^ <x>"%string))). split; [reflexivity | refute]. Qed.
 
-(** hence the full statement (no domain restriction) does not hold *)
-Lemma C06_full_refuted : ~ (forall t l, valid_triple t = true -> valid_layout l = true ->
-  kinded_result (read_raw_string false (nt_line t l)) = Some ([kinded t], 0%nat)).
+(** ** the root causes that survive the tokeniser repairs, refuted on the repaired model *)
+Definition refutes_fx (t : striple) (l : layout) : Prop :=
+  valid_triple t = true /\ valid_layout l = true /\
+  kinded_result (read_raw_string_fx false (nt_line t l)) <> Some ([kinded t], 0%nat).
+
+Ltac refute_fx := unfold refutes_fx; split; [vm_compute; reflexivity | split; [vm_compute; reflexivity | vm_compute; discriminate]].
+
+Lemma C06_F3_refuted_repaired_tokeniser : exists t l, rc_F3 t = true /\ refutes_fx t l.
+Proof. exists (plain (ic "^^")), (lay " " " " " " None). split; [reflexivity | refute_fx]. Qed.
+
+Lemma C06_F4_refuted_repaired_tokeniser : exists t l, rc_F4 t = true /\ refutes_fx t l.
 Proof.
-  intros H. destruct C06_F1_refuted as (t & l & _ & V & VL & N). apply N. apply H; assumption.
+  exists (STriple ex_s ex_p (OLit (ic "xsd:") (SufType (Str "http://e/dt")))), (lay " " " " " " None).
+  split; [reflexivity | refute_fx].
+Qed.
+
+Lemma C06_F5_refuted_repaired_tokeniser : exists t l, rc_F5 t = true /\ refutes_fx t l.
+Proof.
+  exists (STriple ex_s ex_p (OLit (ic "a") (SufType (Str "http://e/a@b")))), (lay " " " " " " None).
+  split; [reflexivity | refute_fx].
+Qed.
+
+(** what is left of F7:  _:b2.#c  *)
+Lemma C06_F7_refuted_repaired_tokeniser : exists t l, rc_F7_fx t l = true /\ refutes_fx t l.
+Proof.
+  exists (STriple ex_s ex_p (ONode (NBn (Str "b2")))), (lay " " " " "" (Some (""%string, "c"%string))).
+  split; [reflexivity | refute_fx].
+Qed.
+
+(** the witnesses of the repaired root causes are read right by the repaired model *)
+Definition reads_right_fx (t : striple) (l : layout) : Prop :=
+  kinded_result (read_raw_string_fx false (nt_line t l)) = Some ([kinded t], 0%nat).
+
+Example C06_F1_F2_F6_F7_F8_repaired :
+  reads_right_fx (plain [IEsc bs; IEsc dq]) (lay " " " " "" None) /\
+  reads_right_fx (plain (ic "a^^ b")) (lay " " " " " " None) /\
+  reads_right_fx (plain (ic "a")) (lay " " " " " " (Some (" "%string, " x@y"%string))) /\
+  reads_right_fx (STriple ex_s ex_p (ONode (NBn (Str "b2")))) (lay " " " " "" (Some (" "%string, " c"%string))) /\
+  reads_right_fx (plain (ic "a")) (lay " " " " " " (Some (" "%string, " ^^ <x>"%string))).
+Proof. repeat split; vm_compute; reflexivity. Qed.
+
+(** hence the full statement (no domain restriction) does not hold, whichever tokeniser /repo has *)
+Lemma C06_full_refuted : ~ (forall t l, valid_triple t = true -> valid_layout l = true ->
+  kinded_result (read_raw_string_cur false (nt_line t l)) = Some ([kinded t], 0%nat)).
+Proof.
+  intros H. unfold read_raw_string_cur in H. destruct nt_fixed_tok.
+  - destruct C06_F3_refuted_repaired_tokeniser as (t & l & _ & V & VL & N). apply N. apply H; assumption.
+  - destruct C06_F1_refuted as (t & l & _ & V & VL & N). apply N. apply H; assumption.
 Qed.
